@@ -1086,7 +1086,7 @@ def translate(text, only=None, opts=None, module=None):
         hdr += ['#endif']
     hdr += stubs
     hdr += gdecl
-    for k, v in sorted(E.exc_ids.items()): hdr.append('#define VERIF_EXC_%s %d' % (k, v))
+    for k, v in sorted(E.exc_ids.items()): hdr += ['#ifndef VERIF_EXC_%s' % k, '#define VERIF_EXC_%s %d' % (k, v), '#endif']
     hdr += [h for h, _ in done.values()]
     body = ['/* generated by ll2c.py - do not edit */']
     body += gdef
